@@ -237,3 +237,11 @@ mod tests {
         }
     }
 }
+
+#[cfg(cicada_verif)]
+pub mod verif_hooks {
+    use super::*;
+    pub fn run_proc(sh: &mut Shell, line: &str, tty: bool, capture: bool) -> CommandResult { super::run_proc(sh, line, tty, capture) }
+    pub fn run_with_shell(sh: &mut Shell, line: &str) -> CommandResult { super::run_with_shell(sh, line) }
+    pub fn line_to_tokens(sh: &mut Shell, line: &str) -> (Tokens, HashMap<String, String>) { super::line_to_tokens(sh, line) }
+}
